@@ -709,3 +709,26 @@ def _mk_prefix(tname, extra):
 
 _mk_prefix('fresh', ())
 _mk_prefix('with_gaps', (('s0', 'urn:p0'), ('s1', 'urn:p1'), ('s3', 'urn:p3'), ('s4', 'urn:p4')))
+
+
+@obligation('C07.binding_namespace', targets=['spyne.const.xml:get_binding_ns'],
+            desc="for every protocol type string: the WSDL binding extension namespace is the SOAP 1.2 one iff the type "
+                 "mentions soap12, otherwise the HTTP one iff it mentions http, otherwise the SOAP 1.1 one -- in particular a "
+                 "type that mentions both soap and soap12 (which is what a Soap12 application reports) is bound to SOAP 1.2",
+            assumptions=["substring tests are z3 sequence containment"])
+def binding_namespace(c):
+    from pyvc.sym import And, Or, Not, Implies, Iff, Contains
+    from spyne.const import xml as X
+    t = c.str('protocol_type')
+    out = c.run(X.get_binding_ns, t)
+    c.check('returns', out.returned, detail=repr(out))
+    if not out.returned:
+        return
+    has12, hashttp = (Contains(t, 'soap12'), Contains(t, 'http')) if not c.concrete else ('soap12' in t, 'http' in t)
+    c.check('soap12_iff_mentioned', Iff(has12, out.value == X.WSDL11_SOAP12), detail=repr(out.value))
+    c.check('http_iff_mentioned_and_not_soap12', Iff(And(Not(has12), hashttp), out.value == X.WSDL11_HTTP), detail=repr(out.value))
+    c.check('soap11_otherwise', Iff(And(Not(has12), Not(hashttp)), out.value == X.WSDL11_SOAP), detail=repr(out.value))
+    # what the protocols of the package report as their type
+    for P, want in ((Soap11, X.WSDL11_SOAP), (Soap12, X.WSDL11_SOAP12)):
+        o2 = c.run(X.get_binding_ns, P.type if isinstance(getattr(P, 'type', None), (str, frozenset, set, list, tuple)) else 'soap')
+        c.check('package_protocols[%s]' % P.__name__, o2.returned and o2.value == want, detail=(repr(getattr(P, 'type', None)), repr(o2)))
